@@ -77,12 +77,15 @@ class McRun:
                 res['engine_error'] = (res.get('engine_error') or '') + ' %s: %s (replay %s)' % (v['status'], v['msg'], v['replay'])
                 continue
             if v.get('known'):
-                from_source = False
+                from_source, own = False, False
                 for k in kn:
                     if k['assertion'] in v['msg']:
-                        v['known_what'] = k.get('what', k['assertion'])
-                        from_source = from_source or bool(k.get('_source'))
-                if from_source:
+                        if k.get('_source'):
+                            from_source = True
+                        else:
+                            own = True
+                            v['known_what'] = k.get('what', k['assertion'])
+                if from_source and not own:
                     res['source_known_seen'] = res.get('source_known_seen', 0) + 1
                     continue
             viols.append(v)
